@@ -518,4 +518,35 @@ def r3_8(ctx: Ctx) -> RuleResult:
     return r1_14(ctx, "R3.8")
 
 
-RULES = [r3_1, r3_2, r3_3, r3_4, r3_5, r3_6, r3_7, r3_8]
+def r3_9(ctx: Ctx) -> RuleResult:
+    """The pointer of a match, printed, is read back token by token: a token becomes an index only in canonical decimal
+    form, otherwise the member named `-0` or `01` is addressed as element 0 / 1 (= R4.2)."""
+    from .c04 import r4_2
+
+    return r4_2(ctx, "R3.9")
+
+
+def r3_10(ctx: Ctx) -> RuleResult:
+    """A normalized path is a query: every character that `canonical_string` leaves unescaped inside the quotes must be
+    accepted by the parser's name-selector check.  The serializer (json.dumps) escapes exactly the C0 controls, the
+    quote and the backslash, so the parser's table of refused raw characters must hold C0 controls only."""
+    rr = RuleResult("R3.10", "every character the printed path leaves raw is accepted in a name selector", floor=1)
+    mod = ctx.repo.modules["jsonpath.parse"]
+    try:
+        chars = ctx.folder.global_value(mod, "INVALID_NAME_SELECTOR_CHARS")
+    except NotConst as err:
+        raise AnalysisError(f"R3.10: INVALID_NAME_SELECTOR_CHARS cannot be folded: {err}") from err
+    if not isinstance(chars, (list, tuple)) or not all(isinstance(c, str) and len(c) == 1 for c in chars):
+        raise AnalysisError("R3.10: INVALID_NAME_SELECTOR_CHARS is not a list of single characters")
+    extra = sorted(c for c in chars if ord(c) >= 0x20)  # noqa: PLR2004
+    where = f"{mod.relpath}"
+    if extra:
+        rr.bad(None, None, f"the parser refuses the raw character(s) {[hex(ord(c)) for c in extra]} in a quoted name although the path printer leaves "
+               "them unescaped (RFC 9535 allows them): the path of a member whose name contains one is a syntax error",
+               construct=f"INVALID_NAME_SELECTOR_CHARS includes {[hex(ord(c)) for c in extra]}", file=where, qualname="jsonpath.parse.INVALID_NAME_SELECTOR_CHARS")
+    else:
+        rr.ok(where, f"the {len(chars)} refused raw characters are C0 controls, which the printer escapes")
+    return rr
+
+
+RULES = [r3_1, r3_2, r3_3, r3_4, r3_5, r3_6, r3_7, r3_8, r3_9, r3_10]
